@@ -113,6 +113,31 @@ Theorem C19_stale_cache_refuted :
     /\ ~ spec_output rt cfg dg.
 Proof. exact stale_cache_refuted. Qed.
 
+(* The cache is keyed by (library, primary name): pruning outdated entries by the primary name only
+   drops the still valid entry of a same-named unit of another library, whose diagnostics then
+   disappear although analyze reported every changed key. *)
+Theorem C19_nameonly_pruning_refuted :
+  exists c rt cfg an dg,
+    cache_ok c rt /\ analyzed_covers rt rt an
+    /\ In dg (snd (lint c rt cfg an)) /\ spec_output rt cfg dg
+    /\ ~ In dg (snd (lint_nameonly c rt cfg an)).
+Proof. exact nameonly_pruning_refuted. Qed.
+
+(* Config::append: when layered configurations define the same library, the LAST definition decides
+   is_third_party (and hence whether the library is linted). *)
+Theorem C19_config_append_last_wins :
+  forall other self l, NoDup (map fst other) ->
+    cm_get (config_append self other) l =
+      match cm_get other l with Some v => Some v | None => cm_get self l end.
+Proof. exact config_append_last_wins. Qed.
+
+Theorem C19_config_append_keepflag_refuted :
+  exists self other l,
+    NoDup (map fst other) /\
+    cm_get (config_append_keepflag self other) l <>
+      match cm_get other l with Some v => Some v | None => cm_get self l end.
+Proof. exact config_append_keepflag_refuted. Qed.
+
 (* ---------------------------------------------------------------------------------------------- *)
 (* Non-vacuity                                                                                      *)
 (* ---------------------------------------------------------------------------------------------- *)
@@ -161,5 +186,8 @@ Print Assumptions C19_history_exact.
 Print Assumptions C19_nofilter_refuted.
 Print Assumptions C19_emit_nofilter_refuted.
 Print Assumptions C19_stale_cache_refuted.
+Print Assumptions C19_nameonly_pruning_refuted.
+Print Assumptions C19_config_append_last_wins.
+Print Assumptions C19_config_append_keepflag_refuted.
 Print Assumptions C19_hyps_satisfiable.
 Print Assumptions C19_history_satisfiable.
